@@ -808,6 +808,9 @@ func c09E2E(c *Ctx, tuples []c09Tuple) {
 	if c.Shard == 0 {
 		c09PrepareKeyspaceOption(c)
 	}
+	if c.Shard == 1%c.NShards {
+		c09PreparedSurvivesOtherConnections(c, bed)
+	}
 
 	if atomic.LoadInt32(&stalls) >= c09MaxStalls {
 		r.Inconc(fmt.Sprintf("C09 e2e: %d requests were never answered; the rest of this shard's sample was abandoned", stalls))
@@ -1240,6 +1243,88 @@ func c09PrepareKeyspaceOption(c *Ctx) {
 					cl.Close()
 				}
 			}
+		}
+	}
+}
+
+// c09PreparedSurvivesOtherConnections: two (three) connections prepare the same system-table SELECT and the same USE; one of
+// them goes away; the others execute their ids. What a connection has prepared is its own: the EXECUTE is still answered by
+// the proxy itself (rows / SET_KEYSPACE) and no backend sees it.
+func c09PreparedSurvivesOtherConnections(c *Ctx, bed *px.Bed) {
+	r := c.R
+	c.Step("c09 prepared system statements and other connections closing")
+	opts := &message.QueryOptions{Consistency: primitive.ConsistencyLevelOne}
+	for round := 0; round < 6; round++ {
+		texts := []string{fmt.Sprintf("SELECT key, rpc_address FROM system.local WHERE key='surv%03d'", round), "SELECT peer FROM system.peers", "USE ks1"}
+		nConn := 2 + round%2
+		var cls []*rawcql.Client
+		ids := make([][][]byte, nConn)
+		ok := true
+		for i := 0; i < nConn && ok; i++ {
+			cl, err := bed.ReadyClient(primitive.ProtocolVersion4, "")
+			if err != nil {
+				ok = false
+				break
+			}
+			cls = append(cls, cl)
+			for j, q := range texts {
+				f, err := cl.Call(int16(10+j), &message.Prepare{Query: q}, c09Wait)
+				if err != nil || f == nil {
+					ok = false
+					break
+				}
+				_, m := c09ReplyKind(cl, f)
+				pr, isP := m.(*message.PreparedResult)
+				if !isP {
+					ok = false
+					break
+				}
+				ids[i] = append(ids[i], pr.PreparedQueryId)
+			}
+		}
+		if !ok {
+			r.Inconc("C09 prepared-survives: PREPARE of a system statement failed")
+			for _, cl := range cls {
+				cl.Close()
+			}
+			return
+		}
+		// the first connection(s) go away, in turn closing before / after the survivor's first EXECUTE
+		gone := 1 + round%(nConn-1)
+		for i := 0; i < gone; i++ {
+			cls[i].Close()
+		}
+		surv := cls[nConn-1]
+		ProgressSteps(surv, 20, 900)
+		time.Sleep(30 * time.Millisecond) // the proxy notices a closed client connection on its read loop
+		mark := bed.Log.Len()
+		for j, q := range texts {
+			f, err := surv.Call(int16(40+j), &message.Execute{QueryId: ids[nConn-1][j], Options: opts}, c09Wait)
+			kind := "no reply"
+			if err == nil && f != nil {
+				kind, _ = c09ReplyKind(surv, f)
+			}
+			_, _ = surv.Call(int16(50+j), &message.Query{Query: "SELECT * FROM ks1.t WHERE key='" + NewTok() + "'", Options: opts}, c09Wait) // barrier
+			fw := 0
+			for _, e := range bed.Log.Snapshot()[mark:] {
+				if e.Src == "backend" && e.K == "recv" && !e.Ctl && primitive.OpCode(e.Op) == primitive.OpCodeExecute && bytes.Contains(e.Body, ids[nConn-1][j]) {
+					fw++
+				}
+			}
+			r.Eval(1)
+			r.Obs("prepared_survives_executes", 1)
+			want := "ROWS"
+			if strings.HasPrefix(q, "USE") {
+				want = "SET_KEYSPACE"
+			}
+			if fw > 0 || kind != want {
+				r.Violate(mon.Violation{Signature: "C09/prepared-system-statement/execute-after-another-connection-closed/" + strings.Fields(q)[0], Detail: fmt.Sprintf("%d connections prepared %q; %d of them closed; the EXECUTE of the id on a connection that is still open (and prepared it itself) was answered %s and reached a backend %d times (must be answered %s by the proxy)", nConn, q, gone, kind, fw, want),
+					Scenario: map[string]interface{}{"kind": "c09-prepared-survives", "round": round}})
+			}
+		}
+		r.NonTrivial(fmt.Sprintf("prepared-survives/conns=%d/gone=%d", nConn, gone))
+		for _, cl := range cls[gone:] {
+			cl.Close()
 		}
 	}
 }
